@@ -11,7 +11,11 @@ mod p08;
 mod p09;
 mod p10;
 mod p11;
+mod p13;
 mod p15;
+mod p16;
+mod p17;
+mod p18;
 mod p04;
 mod p05;
 mod p12;
@@ -86,6 +90,10 @@ fn main() {
         "C10" => p10::run(&cfg, &mut rng, &mut out),
         "C11" => p11::run(&cfg, &mut rng, &mut out),
         "C15" => p15::run(&cfg, &mut rng, &mut out),
+        "C17" => p17::run(&cfg, &mut rng, &mut out),
+        "C13" => p13::run(&cfg, &mut rng, &mut out),
+        "C16" => p16::run(&cfg, &mut rng, &mut out),
+        "C18" => p18::run(&cfg, &mut rng, &mut out),
         "C04" => p04::run(&cfg, &mut rng, &mut out),
         "C05" => p05::run(&cfg, &mut rng, &mut out),
         "C12" => p12::run(&cfg, &mut rng, &mut out),
